@@ -302,14 +302,20 @@ Definition guarded (inst : Z) (u : eunit) (close : bool) (m : M pstate) : M psta
 Definition after_lag (inst : Z) (u : eunit) (idx : nat) (e : event) : M pstate :=
   (if unit_filter u e then p_ack u idx e else unit_handler inst u e ;;; p_ack u idx e) ;;; ret PRun.
 
+Definition lease_live : M bool := fun s => (Ok (o_lease s && negb (o_dead s)), s).
+
 Definition consume_iter (inst : Z) (u : eunit) : M pstate :=
   w <- get_w ;;
+  live <- lease_live ;;
   match next_event (unit_topic u) (w_log w) 0 (get_cursor w u) with
-  | None => emit (TCall KRV [] RBlocked []) ;;; ret PRun
+  | None =>
+    if (live : bool) then emit (TCall KRV [] RBlocked []) ;;; ret PRun
+    else (* Recv returns the context's error once the lease is gone *)
+      d <- dispatch KRV true ;; emit (TCall KRV [] (disp_res d) []) ;;; disp_ret d PRun
   | Some (idx, e) =>
     d <- dispatch KRV true ;;
     match d with
-    | DoOk =>
+    | DoOk | DoStale =>
       emit (TRecv e) ;;;
       let lag := unit_lag u in
       if (lag >? 0) && (e_created e + lag >? w_now w)
@@ -334,7 +340,7 @@ Definition proc_op (inst : Z) (u : eunit) (ps : pstate) : M pstate :=
     | None =>
       d <- dispatch KAW false ;;
       match d with
-      | DoOk =>
+      | DoOk | DoStale =>
         emit (TCall KAW [] ROk []) ;;;
         put_w (acquire_role w u inst) ;;;
         match u with
@@ -357,11 +363,16 @@ Definition proc_op (inst : Z) (u : eunit) (ps : pstate) : M pstate :=
     end
   | PLag idx e deadline =>
     w <- get_w ;;
-    if deadline >? w_now w then emit (TCall KTW [deadline] RBlocked []) ;;; ret ps
+    live <- lease_live ;;
+    if negb live then (* the lag wait returns the context's error: the event is not handled *)
+      emit (TCall KTW [deadline] RCancel []) ;;; guarded inst u true (fail ECancel)
+    else if deadline >? w_now w then emit (TCall KTW [deadline] RBlocked []) ;;; ret ps
     else emit (TCall KTW [deadline] ROk []) ;;; guarded inst u true (after_lag inst u idx e)
   | PBackoff deadline =>
     w <- get_w ;;
-    if deadline >? w_now w then emit (TCall KTW [deadline] RBlocked []) ;;; ret ps
+    live <- lease_live ;;
+    if negb live then emit (TCall KTW [deadline] RCancel []) ;;; m_release u inst ;;; ret PIdle
+    else if deadline >? w_now w then emit (TCall KTW [deadline] RBlocked []) ;;; ret ps
     else emit (TCall KTW [deadline] ROk []) ;;; m_release u inst ;;; ret PIdle
   end.
 
@@ -425,6 +436,7 @@ Inductive eop :=
 | OAdvance (d : Z)
 | OStep (inst : Z) (u : eunit) (p : plan)
 | OCrash (inst : Z)
+| OLose (inst : Z) (u : eunit)          (* the role scheduler revokes the lease of a parked process (it notices at its next step) *)
 | ORewind (u : eunit) (pos : nat)
 | ODup (idx : nat).
 
@@ -444,13 +456,20 @@ Definition run_op (w : world) (o : eop) : world * list tok :=
   | OAdvance d => (set_now w (w_now w + d), [])
   | OStep inst u p =>
     let ps := get_pstate w (inst, u) in
-    match proc_op inst u ps (mkOst w p [] [] true false) with
+    let lost := match ps with PIdle => false | _ => existsb (procid_eqb (inst, u)) (w_lost w) end in
+    let w := set_lost w (filter (fun x => negb (procid_eqb (inst, u) x)) (w_lost w)) in
+    match proc_op inst u ps (mkOst w p [] [] (negb lost) false) with
     | (Ok ps', s) =>
       let w' := put_pstate (o_w s) (inst, u) ps' in
       ((if o_dead s then crash_inst w' inst else w'), rev (o_trace s))
     | (Err _, s) => ((if o_dead s then crash_inst (o_w s) inst else o_w s), rev (o_trace s))
     end
   | OCrash inst => (crash_inst w inst, [])
+  | OLose inst u =>
+    match get_pstate w (inst, u) with
+    | PIdle => (w, [])
+    | _ => (set_lost (release_role w u inst) ((inst, u) :: w_lost w), [])
+    end
   | ORewind u pos => (put_cursor w u pos, [])
   | ODup idx =>
     match nth_error (w_log w) idx with
